@@ -167,6 +167,9 @@ func (x *Exec) checkCallEvent(fr *Frame, st *State, key string, c *ssa.CallCommo
 		return
 	}
 	short := key[strings.LastIndex(key, "/")+1:]
+	if fr.isRoot {
+		x.tokenEvent(st, st, "call", key, nil)
+	}
 	for _, cl := range x.rootC.Clauses {
 		if cl.Kind != "callback" || !strings.HasPrefix(cl.Name, "call:") {
 			continue
